@@ -46,7 +46,7 @@ def holders(rng, n):
 
 def generate(tier, seed):
     cases = [{"kind": "build-product"}]
-    nb, nm, nc = (40, 25, 10) if tier == "quick" else (8000, 6000, 1200)
+    nb, nm, nc = (40, 25, 40) if tier == "quick" else (8000, 6000, 1200)
     for k in range(nb):
         cases.append({"kind": "build", "k": k, "n": 500})
     for k in range(nm):
